@@ -164,7 +164,7 @@ def check_redefine(case, ctx):
     new['mu'] = case['new_mu']
     new['a'] = case['a'] * case['new_a']
     ctx.nontrivial = True
-    ctx.label('model:' + case['model'], 'calc_k0-between' if case['k0_between'] else 'kM-directly')
+    ctx.label('model:' + case['model'], 'calc_k0-between' if case['k0_between'] else 'kM-directly', 'edited:' + case.get('edited', 'all'))
     p.offset = new['lam']['offset']
     p.mu = new['mu']
     p.a = new['a']
@@ -216,9 +216,13 @@ def check_bay_mass(case, ctx):
 @st.composite
 def _redefine_strategy(draw, tier='quick'):
     case = draw(pkg.panel_case(models=('plate', 'cpanel', 'plate_w', 'kpanel'), mmax=4, with_mu=True, max_plies=2, sub_interval=False))
-    case['new_offset'] = draw(gen.fl(-2., 2.))
-    case['new_mu'] = draw(gen.logfl(1., 1e4))
-    case['new_a'] = draw(gen.fl(0.5, 1.5)) if case['model'] != 'kpanel' else 1.
+    # any non-empty subset of (offset, density, length) is edited - a sweep usually changes ONE quantity
+    which = draw(st.sampled_from(['offset', 'offset', 'mu', 'a', 'offset+mu', 'offset+a', 'all']))
+    h = pkg.lam_h(case)
+    case['edited'] = which
+    case['new_offset'] = draw(st.one_of(gen.fl(-2., -0.1), gen.fl(0.1, 2.))) if ('offset' in which or which == 'all') else case['lam']['offset'] / h
+    case['new_mu'] = draw(gen.logfl(1., 1e4)) if ('mu' in which or which == 'all') else case['mu']
+    case['new_a'] = draw(gen.fl(0.5, 1.5)) if (('a' in which.split('+') or which == 'all') and case['model'] != 'kpanel') else 1.
     case['k0_between'] = draw(st.booleans())
     return case
 
